@@ -321,6 +321,15 @@ OP(bn_grow_lsh_inplace) {
 	out_bn(R[1]);
 	bn_add_dig(R[1], R[1], 1); out_bn(R[1]);
 }
+/* a bit above the current length of a short integer: the digits in between have never been written */
+OP(bn_set_bit_above) {
+	bn_t t; bn_null(t); bn_new(t);
+	bn_set_dig(t, 5);
+	W(bn_set_bit(t, (uint_t)(64 + B[6]->dp[0] % (RLC_BN_BITS - 64)), 1));
+	out_bn(t);
+	bn_set_bit(t, (uint_t)(B[5]->dp[0] % RLC_BN_BITS), 0); out_bn(t);
+	bn_free(t);
+}
 OP(bn_grow_add_inplace) { full_capacity(R[1], 1); W(bn_add_dig(R[1], R[1], 5)); out_bn(R[1]); bn_rsh(R[1], R[1], 3); out_bn(R[1]); }
 
 /* divisor / modulus of a seeded shorter length (all B[i] of a class have the same length, which would make
@@ -1129,7 +1138,7 @@ static const op_t ops[] = {
 	E(bn_mxp_monty, 0), E(bn_mxp_dig, 0), E(bn_mxp_sim, 0), E(bn_srt, 0), E(bn_gcd_basic, 0), E(bn_gcd_lehme, 0),
 	E(bn_gcd_binar, 0), E(bn_gcd_ext_basic, 0), E(bn_gcd_ext_lehme, 0), E(bn_gcd_ext_binar, 0), E(bn_gcd_ext_mid, 0), E(bn_gcd_swapped, 0),
 	E(bn_lcm, 0), E(bn_smb_leg, 0), E(bn_smb_jac, 0), E(bn_is_prime, 0), E(bn_is_prime_solov, 0),
-	E(bn_gen_prime_small, 0), E(bn_factor, 0), E(bn_rec_naf, 0), E(bn_rec_win, 0), E(bn_rec_slw, 0), E(bn_rec_reg, 0),
+	E(bn_set_bit_above, 0), E(bn_gen_prime_small, 0), E(bn_factor, 0), E(bn_rec_naf, 0), E(bn_rec_win, 0), E(bn_rec_slw, 0), E(bn_rec_reg, 0),
 	E(bn_rec_jsf, 0), E(bn_rec_glv, 0), E(bn_read_str, 0), E(bn_write_str, 0), E(bn_read_bin, 0), E(bn_lag, 0),
 	E(bn_evl, 0), E(bn_rand_mod, 0), E(bn_mod_inv_sim, 0), E(bn_mxp_sim_lot, 0),
 	E(fp_mul, 0), E(fp_sqr, 0), E(fp_inv_basic, 0), E(fp_inv_binar, 0), E(fp_inv_monty, 0), E(fp_inv_exgcd, 0),
